@@ -30,6 +30,7 @@ type c06Case struct {
 	VolNames []string `json:"volnames,omitempty"` // middle parts of the volume names
 	Foreign  int      `json:"foreign"`            // position of a foreign-set packet in index and volumes (-1 none)
 	Unknown  int      `json:"unknown"`            // position of an unknown-type packet (-1 none)
+	UnkBody  int      `json:"unkbody,omitempty"`  // body of the unknown-type packet: 0 = 8 bytes, 1 = empty (packet length exactly 64), 2 = 1 KiB; 3 = empty body AND foreign set id
 	VolCore  int      `json:"volcore"`            // 0 full core packets, 1 creator only, 2 creator+main, 3 core packets after the recovery packets
 	Subdir   bool     `json:"subdir,omitempty"`   // protected files live in sub-directories
 	RecvRev  bool     `json:"recvrev,omitempty"`  // recovery packets in descending order, duplicated
@@ -120,6 +121,12 @@ func c06Alternatives(allPerms bool) []func(*c06Case) {
 	for pos := 0; pos <= 6; pos++ {
 		pos := pos
 		alts = append(alts, func(c *c06Case) { c.Unknown = pos })
+	}
+	for _, ub := range []int{1, 2, 3} {
+		for _, pos := range []int{1, 3, 6} {
+			ub, pos := ub, pos
+			alts = append(alts, func(c *c06Case) { c.Unknown = pos; c.UnkBody = ub })
+		}
 	}
 	for _, vc := range []int{1, 2, 3} {
 		vc := vc
@@ -213,7 +220,18 @@ func c06Run(ci interface{}, r *core.Rec) {
 	set := rpar2.NewSet(slice, specs)
 	other := rpar2.NewSet(slice, []rpar2.FileSpec{{Name: "zz", Data: scen.Garbage(r.Seed, 4242, 9)}})
 	foreignPkt := other.MainPacket()
-	unknownPkt := rpar2.Packet(set.SetID, [16]byte{'P', 'A', 'R', ' ', '2', '.', '0', 0, 'X', 'y', 'z', 'z', 'y'}, []byte("opaque!!"))
+	unkBody := []byte("opaque!!")
+	unkSet := set.SetID
+	switch c.UnkBody {
+	case 1:
+		unkBody = nil
+	case 2:
+		unkBody = bytes.Repeat([]byte("opaque!!"), 128)
+	case 3:
+		unkBody = nil
+		unkSet = other.SetID
+	}
+	unknownPkt := rpar2.Packet(unkSet, [16]byte{'P', 'A', 'R', ' ', '2', '.', '0', 0, 'X', 'y', 'z', 'z', 'y'}, unkBody)
 
 	groups := [][]byte{set.CreatorPacket("refwriter"), set.MainPacket()}
 	for _, f := range set.Files {
@@ -444,7 +462,7 @@ func init() {
 	core.Register(&core.Prop{
 		ID:    "C06",
 		Level: "model_checking",
-		Rule: "bounded-exhaustive layouts from the reference writer, on real directories through the exported API: the default layout, EVERY single deviation (all 719 packet-group permutations of the index, duplication of each packet, every exponent subset of {0,1,2,5,9,100,2000} of size<=4, 1-3 volume files, 6 volume-name families incl. spaces and glob metacharacters, 9 base names incl. [ ] * ? \\ and non-ASCII, a foreign-set packet at each position, an unknown-type packet at each position, volumes with full / creator-only / creator+main / trailing core packets, sub-directory file names, reversed+duplicated recovery packets, 6 damage patterns, goroutines), and all PAIRS of deviations (quick: reduced permutation list; thorough: all permutations, plus all triples over the reduced list). " +
+		Rule: "bounded-exhaustive layouts from the reference writer, on real directories through the exported API: the default layout, EVERY single deviation (all 719 packet-group permutations of the index, duplication of each packet, every exponent subset of {0,1,2,5,9,100,2000} of size<=4, 1-3 volume files, 6 volume-name families incl. spaces and glob metacharacters, 9 base names incl. [ ] * ? \\ and non-ASCII, a foreign-set packet at each position, an unknown-type packet at each position (8-byte, empty and 1 KiB bodies; empty-bodied foreign-set packet), volumes with full / creator-only / creator+main / trailing core packets, sub-directory file names, reversed+duplicated recovery packets, 6 damage patterns, goroutines), and all PAIRS of deviations (quick: reduced permutation list; thorough: all permutations, plus all triples over the reduced list). " +
 			"Oracle: counts equal gopar's own canonical set for the same data and damage and equal the reference (all intact blocks found); Repair succeeds whenever every K-subset of the stored exponents is non-singular by the reference. non-trivial = damaged scenario repaired",
 		Assumptions: []string{"layouts stay inside the statement's envelope: index without recovery packets and starting with an own-set packet, creator packet in every file, ASCII file names, no non-recovery-set files"},
 		NewCase:     func() interface{} { c := c06Default(); return &c },
